@@ -149,8 +149,8 @@ func H_C20_redelegations() {
 	r1 := nd.IntRange("r1", "1", Pow30)
 	type rent struct {
 		d, dst, a int
-		c        time.Time
-		amt      math.Int
+		c         time.Time
+		amt       math.Int
 	}
 	ref := []rent{{0, 1, 0, c1, r1}}
 	InstallRedelegation(e, 0, 0, 1, 0, r1, c1)
